@@ -14,7 +14,7 @@ _SWEEP_RULE = ('HTTP sweep through the real api.NewRouter over the real system c
 
 PROPS['C38'] = dict(
     target='Props/C38',
-    theorems=['C38_total', 'C38_no_effect', 'C38_rejected_before_store'],
+    theorems=['C38_total', 'C38_no_effect', 'C38_rejected_before_store', 'C38_write_answer_is_2xx_or_4xx', 'C38_error_status_no_effect', 'C38_named_rejections'],
     ties=[dict(name='TIE-C apidec', vh='apidec', model='apidec', case_head='apidec', n=dict(quick=12000, thorough=400000), kinds=['C38']),
           dict(name='TIE-D httpsweep', vh='httpsweep', model=None, n=dict(quick=1500, thorough=40000), kinds=['C38'], case_head='http', replayable=False)],
     rule=_APIDEC_RULE + ' || ' + _SWEEP_RULE,
